@@ -96,7 +96,7 @@ def block_jobs(ctx):
     for nm, k in kinds:
         for typed in (1, 0):
             for dead in (0, 1):
-                if dead and (typed == 0 or (ctx.tier == "quick" and nm not in ("block", "ifelse"))):
+                if dead and typed == 0:
                     continue
                 for pr in ((0, 1) if ctx.tier == "thorough" else (0,)):
                     name = "S.%s%s%s%s" % (nm, ".typed" if typed else ".void", ".dead" if dead else "", ".pretty" if pr else "")
